@@ -52,6 +52,12 @@ Init == /\ kind \in [Clients -> Kinds]
         /\ stop = FALSE /\ stopSeen = FALSE /\ used = [i \in IPs |-> 0]
         /\ now = 0 /\ acceptAt = [c \in Clients |-> -1] /\ closedAt = [c \in Clients |-> -1] /\ afterStop = {} /\ admitted = {}
 
+\* Clients are interchangeable: it is enough to explore one assignment of behaviours per multiset (used as a CONSTRAINT; `kind`
+\* never changes, so it only prunes initial states; every property below is invariant under renaming clients)
+KindRank(k) == CASE k = "goodA" -> 1 [] k = "goodB" -> 2 [] k = "silent" -> 3 [] k = "badhdr" -> 4 [] OTHER -> 5
+ClientSeq == CHOOSE s \in [1..Cardinality(Clients) -> Clients] : \A i, j \in 1..Cardinality(Clients) : i # j => s[i] # s[j]
+SortedKinds == \A i \in 1..(Cardinality(Clients) - 1) : KindRank(kind[ClientSeq[i]]) <= KindRank(kind[ClientSeq[i + 1]])
+
 ---------------------------------------------------------------------------
 (* clients *)
 Connect(c) == /\ cl[c] = "idle" /\ loop.pc # "Returned"
